@@ -169,7 +169,28 @@ def run(run):
         wc = "".join(with_c)
         # reference from the property text: each comment and the line break directly before it deleted
         cases_b.append((wc, re.sub(r"(?s)\n?<!--.*?-->", "", wc), adj))
+    # ---- (c) templates whose body holds nowiki content, transcluded on many pages of one context, after other constructs
+    LIT = "L&#91;&#91;x&#93;&#93; &#123;&#123;y&#124;z&#125;&#125; &#39;&#39;q&#39;&#39;R"
+    cases_c = []
+    for _ in range(60 if run.tier == "quick" else 1500):
+        pre = "".join(rng.choice(["[[l|t]] ", "{{a|x}} ", "{{echo|p}} ", "word ", "[[zz]] ", "{{two|1|2}} ", ""]) for _ in range(rng.randint(0, 4)))
+        k = rng.choice(["lit", "lit", "lit2", "both"])
+        cases_c.append((pre + {"lit": "{{lit}}", "lit2": "{{lit2|v}}", "both": "{{lit}} {{lit2|v}} {{lit}}"}[k], k))
     texts = [t for _, _, t in cases_a] + [x for a, b, _ in cases_b for x in (a, b)] + [CONTEXTS[k] % "MARKERX" for k in BY_MARKER]
+    res_c = lib.run_impl("c15", [{"texts": [t for t, _ in cases_c]}], shards=1)[0]
+    for (t, k), o in zip(cases_c, res_c.get("outs", []) if res_c.get("outcome") == "ok" else []):
+        run.count(["nowiki-in-template-body", t], True, "nowiki:template-body")
+        e = o["expand"]
+        import html as _html
+        ok = isinstance(e, str)
+        if ok and k in ("lit", "both"):
+            ok = "L[[x]] {{y|z}} ''q''R" in _html.unescape(e) and "[[x]]" not in e and "{{y" not in e
+        if ok and k in ("lit2", "both"):
+            ok = "* {{{1}}} <b>v" in _html.unescape(e) and "{{{1}}}" not in e
+        if not ok:
+            run.property_failure("c15:nowiki:not-inert:template-body", "%r expanded to %r" % (t, e), t)
+    if res_c.get("outcome") != "ok":
+        run.correspondence_break("template-body nowiki pages could not be run", None, result=str(res_c)[:300])
     chunks = [texts[i:i + 150] for i in range(0, len(texts), 150)]
     res = lib.run_impl("c15", [{"texts": ch} for ch in chunks], shards=lib.NCPU)
     outs = []
